@@ -486,7 +486,8 @@ def run():
     # and the value must be the mirror's, which stream 3b compared with real serde
     if env is not None and not stale and pr["ok"] and edited_small:
         ck.rng.shuffle(edited_small)
-        acc = [e for e in edited_small if e[3] is not None][:ck.n(24, 100)]
+        # accepted repeated-key and scalar edits (map last-wins, unknown repeats, integer read as float) are rare: take them first
+        acc = sorted([e for e in edited_small if e[3] is not None], key=lambda e: e[1] not in ("dup-key", "scalar"))[:ck.n(24, 100)]
         rej = [e for e in edited_small if e[3] is None][:ck.n(24, 100)]
         es = acc + rej
         exprs = ["(match de GenSerde.env GenSerde.%s %s with Some v => (true, v) | None => (false, VNone) end)"
